@@ -7,7 +7,7 @@
       [getNextSequenceSend] / [getAckStatus] views.
     * [monitor_failures]: the properties themselves as executable checks on the IMPLEMENTATION's trace alone
       (they never call the model's step function; they use the real decode / pack / sha256 / verify tables). *)
-From Teleport Require Import Base.Bytes Base.Outcome Base.AList Model.Packet Model.PacketKeys.
+From Teleport Require Import Base.Bytes Base.Outcome Base.AList Model.Packet Model.PacketKeys Model.PacketClients.
 Local Open Scope N_scope.
 
 (** ** the real key builders (regenerated from host/keys.go, see Model/PacketKeys.v) and identifier validator *)
@@ -75,8 +75,9 @@ Definition t_fold (o : oracles) (a b : bytes) : bool :=
 Definition m_params (o : oracles) : params :=
   mkParams c_receipt_key c_ack_key c_commitment_key c_nextseq_key c_valid_name
            (t_decode o) (t_pack o) (t_sha o) (t_decode_ack o) (t_pack_ack o) (t_verify o) (t_bech32 o) (t_fold o).
-(** one delivered message: the messages' stateless ValidateBasic, then the handler *)
-Definition m_exec (o : oracles) := deliver (m_params o).
+(** one delivered message: proof height among the consensus states of the present client instance (client-store layer),
+    the messages' stateless ValidateBasic, then the handler *)
+Definition m_exec (o : oracles) := deliver2 (m_params o).
 
 (** ** cases *)
 Record ostep := mkOStep {
@@ -86,11 +87,15 @@ Record ostep := mkOStep {
   os_unchanged : bool;                           (* observed: full xibc + evm + bank dumps identical before/after *)
   os_cseq : list (bytes * N);                    (* observed packet contract getNextSequenceSend(dst) *)
   os_ackstatus : list (bytes * N * N);           (* observed getAckStatus(dst, seq) of packets sent from here *)
-  os_emitted : list bytes }.                     (* accepted EVM transaction: bytes of its PacketSent logs as EMITTED *)
+  os_emitted : list bytes;                       (* accepted EVM transaction: bytes of its PacketSent logs as EMITTED *)
+  os_cons : list height;                         (* consensus-state heights this step wrote into the client store of the
+                                                    client it names (create / toggle: all heights present afterwards) *)
+  os_wack : option (N * N) }.                    (* accepted receive: (code, fee option) of the acknowledgement bytes it
+                                                    wrote, unpacked with the raw go-ethereum ABI *)
 
 Record chain_init := mkChain {
   ci_name : bytes; ci_clients : alist ctype; ci_relayers : alist (list bytes * list bytes);
-  ci_store : alist bytes; ci_cseq : list (bytes * N) }.
+  ci_store : alist bytes; ci_cseq : list (bytes * N); ci_cons : cstore }.
 
 Record pcase := mkCase {
   pc_chains : list chain_init; pc_steps : list ostep; pc_final : list (alist bytes); pc_or : oracles }.
@@ -127,23 +132,24 @@ Definition model_ackstatus (s : cstate) (d : bytes) (q : N) : N :=
 
 (** ** model vs implementation.  kinds: 1 outcome class, 2 packet families of the store, 3 contract send
     counter view, 4 ack status view, 5 final store of a chain, 6 malformed case (chain index) *)
-Fixpoint cmp_steps (o : oracles) (i : nat) (ms : list cstate) (obs : list (alist bytes)) (l : list ostep)
-  : list (nat * nat) * list cstate * list (alist bytes) :=
+Fixpoint cmp_steps (o : oracles) (i : nat) (ms : list (cstate * cstore)) (obs : list (alist bytes)) (l : list ostep)
+  : list (nat * nat) * list (cstate * cstore) * list (alist bytes) :=
   match l with
   | [] => ([], ms, obs)
   | st :: l' =>
       match nth_error ms (os_chain st), nth_error obs (os_chain st) with
-      | Some s, Some ob =>
+      | Some (s, cs), Some ob =>
           let ob' := apply_delta ob (os_delta st) in
-          let r := m_exec o (os_env st) s (os_act st) in
+          let r := m_exec o (os_env st) s cs (os_act st) in
           let s' := match r with Ok s' => s' | _ => s end in
           let cls := match r with Ok _ => 0%nat | _ => 1%nat end in
+          let cs' := cs_step cs (os_act st) (Nat.eqb cls 0) (os_cons st) in
           if negb (Nat.eqb cls (os_class st)) then ([(i, 1%nat)], ms, obs)
           else if negb (store_eqb (st_store s') ob') then ([(i, 2%nat)], ms, obs)
           else if negb (forallb (fun dn => cseq_view s' (fst dn) =? snd dn) (os_cseq st)) then ([(i, 3%nat)], ms, obs)
           else if negb (forallb (fun e => model_ackstatus s' (fst (fst e)) (snd (fst e)) =? snd e) (os_ackstatus st))
                then ([(i, 4%nat)], ms, obs)
-          else cmp_steps o (S i) (upd (os_chain st) s' ms) (upd (os_chain st) ob' obs) l'
+          else cmp_steps o (S i) (upd (os_chain st) (s', cs') ms) (upd (os_chain st) ob' obs) l'
       | _, _ => ([(i, 6%nat)], ms, obs)
       end
   end.
@@ -156,12 +162,12 @@ Fixpoint all2 {A B} (f : A -> B -> bool) (a : list A) (b : list B) : bool :=
   end.
 
 Definition cmp_case (c : pcase) : list (nat * nat) :=
-  let ms := map init_state (pc_chains c) in
+  let ms := map (fun ci => (init_state ci, ci_cons ci)) (pc_chains c) in
   let obs := map ci_store (pc_chains c) in
   match cmp_steps (pc_or c) 0 ms obs (pc_steps c) with
   | (e :: es, _, _) => e :: es
   | ([], ms', obs') =>
-      if all2 store_eqb obs' (pc_final c) && all2 (fun s f => store_eqb (st_store s) f) ms' (pc_final c)
+      if all2 store_eqb obs' (pc_final c) && all2 (fun s f => store_eqb (st_store (fst s)) f) ms' (pc_final c)
       then [] else [(length (pc_steps c), 5%nat)]
   end.
 
@@ -181,7 +187,8 @@ Definition sub_store (a b : alist bytes) : bool :=
 
 Record mchain := mkM {
   m_name : bytes; m_clients : alist ctype; m_store : alist bytes;
-  m_recvd : list triple; m_acked : list triple }.
+  m_recvd : list triple; m_acked : list triple;
+  m_relayers : alist (list bytes * list bytes) }.   (* relayer registry: initial records + accepted registrations *)
 
 Definition obs_next_seq (st : alist bytes) (s d : bytes) : option N :=
   match aget (c_nextseq_key s d) st with
@@ -210,7 +217,9 @@ Fixpoint expect_sends (o : oracles) (name : bytes) (clients : alist ctype) (st :
 Definition persisted_sends (a : action) : list (packet * bool) :=
   match a with
   | ASend cb => cb_sends cb
-  | ARecv _ cb => cb_sends cb
+  | ARecv _ cb =>
+      (* the sends a destination callback EMITTED persist only if the callback persisted: no failure, result code 0 *)
+      if cb_fail cb then [] else match cb_ret cb with Some (0, _, _) => cb_sends cb | _ => [] end
   | AAck _ cb1 cb2 cb3 => cb_sends cb1 ++ cb_sends cb2 ++ cb_sends cb3
   | _ => []
   end.
@@ -233,6 +242,11 @@ Definition fails (b : bool) (k : nat) : list nat := if b then [] else [k].
     24 an accepted transaction's PacketSent log whose bytes do not decode, or whose triple does not hold
        sha256(emitted bytes) as commitment afterwards                          C04
     25 a client is registered under the chain's own name (fix a9e74e1: the create proposal must be refused)   C04 C05
+    26 accepted receive addressed to this chain whose written acknowledgement does not carry the callback's result code
+       (1 for a failed callback) and the packet's fee option                   C05
+    27 accepted acknowledgement of a packet sent from this chain whose acknowledgement bytes do not decode, are all
+       zero, or name a relayer that is not registered on this chain for the destination (the fee could not be paid, the
+       message must fail and keep the commitment)                              C05
     19 accepted receive/ack not verified (client API or low-level recomputation false, no client, stored
        commitment differs)                                                     C02 *)
 Definition mon_step (o : oracles) (m : mchain) (st : ostep) : list nat * mchain :=
@@ -292,7 +306,15 @@ Definition mon_step (o : oracles) (m : mchain) (st : ostep) : list nat * mchain 
                                                           (p_src p) (p_dst p) (p_seq p) (t_sha o bz)) in
                                 fst r && snd r
                             | _, _ => false end) 19 in
-          (k11 ++ k21 ++ k15 ++ k19, t :: m_recvd m, m_acked m)
+          let k26 := if bytes_eqb (p_dst p) (m_name m)
+                     then fails (match os_wack st with
+                                 | Some (code, fee) =>
+                                     (fee =? p_fee p) &&
+                                     (if cb_fail cb then code =? 1
+                                      else match cb_ret cb with Some (c, _, _) => code =? c | None => false end)
+                                 | None => false end) 26
+                     else [] in
+          (k11 ++ k21 ++ k15 ++ k19 ++ k26, t :: m_recvd m, m_acked m)
         else ([], m_recvd m, m_acked m)
     | AAck msg _ _ _ =>
         let '(p, err) := t_decode o (am_packet msg) in
@@ -309,7 +331,16 @@ Definition mon_step (o : oracles) (m : mchain) (st : ostep) : list nat * mchain 
                                 match aget (c_commitment_key (p_src p) (p_dst p) (p_seq p)) before with
                                 | Some c => bytes_eqb c (t_sha o bz) | None => false end
                             | _, _ => false end) 19 in
-          (k18 ++ k19, m_recvd m, t :: m_acked m)
+          let k27 := if bytes_eqb (p_src p) (m_name m)
+                     then fails (match t_decode_ack o (am_ack msg) with
+                                 | Some a =>
+                                     negb (ack_empty a) &&
+                                     match relayer_on_teleport_in (m_params o) (m_relayers m) (p_dst p) (a_relayer a) with
+                                     | Ok (Some r) => match t_bech32 o r with Some _ => true | None => false end
+                                     | _ => false end
+                                 | None => false end) 27
+                     else [] in
+          (k18 ++ k19 ++ k27, m_recvd m, t :: m_acked m)
         else ([], m_recvd m, m_acked m)
     | _ => ([], m_recvd m, m_acked m)
     end in
@@ -330,7 +361,11 @@ Definition mon_step (o : oracles) (m : mchain) (st : ostep) : list nat * mchain 
                            accepted && bytes_eqb (fst kv) (c_commitment_key (p_src p) (p_dst p) (p_seq p))
                            && match t_pack o p with Some bz => bytes_eqb (snd kv) (t_sha o bz) | None => false end
                        | _ => false end) gone) 17 in
-  (k12 ++ k20 ++ k16 ++ k13 ++ k14 ++ k24 ++ k25 ++ kmsg ++ k17 ++ k23, mkM (m_name m) clients' after recvd' acked').
+  (k12 ++ k20 ++ k16 ++ k13 ++ k14 ++ k24 ++ k25 ++ kmsg ++ k17 ++ k23,
+   mkM (m_name m) clients' after recvd' acked'
+       (match os_act st with
+        | ARegisterRelayer addr chains addrs => if accepted then aset addr (chains, addrs) (m_relayers m) else m_relayers m
+        | _ => m_relayers m end)).
 
 Fixpoint mon_steps (o : oracles) (i : nat) (ms : list mchain) (l : list ostep) : list (nat * nat) :=
   match l with
@@ -345,7 +380,7 @@ Fixpoint mon_steps (o : oracles) (i : nat) (ms : list mchain) (l : list ostep) :
   end.
 
 Definition mon_case (c : pcase) : list (nat * nat) :=
-  mon_steps (pc_or c) 0 (map (fun ci => mkM (ci_name ci) (ci_clients ci) (ci_store ci) [] []) (pc_chains c)) (pc_steps c).
+  mon_steps (pc_or c) 0 (map (fun ci => mkM (ci_name ci) (ci_clients ci) (ci_store ci) [] [] (ci_relayers ci)) (pc_chains c)) (pc_steps c).
 
 Definition monitor_failures (cs : list pcase) : list (nat * (nat * nat)) :=
   flat_map (fun ic => map (fun m => (fst ic, m)) (mon_case (snd ic))) (number 0 cs).
